@@ -1,7 +1,7 @@
 --------------------------- MODULE Gen_AdtLayout ---------------------------
 (* Stage (B) for C14: TLC enumerates the shape space of ADT tiles.                                 *)
 (*   shape == [ver, ntex, nmdl, nwmo, nddf, nmodf, mcnk, where, mcvt, mcnr, nly, mcrf, mcal, mcsh,  *)
-(*             mclq, mccv, mcse, mclv, water, wlay, mfbo, mtxf, mamp, mtxp, bmesh]                  *)
+(*             mclq, mccv, mcse, mclv, water, wlay, wbase, mfbo, mtxf, mamp, mtxp, bmesh]           *)
 (* The full product has ~5*10^9 elements, so both tiers use the reduced product: deterministic     *)
 (* low-dimensional slices through the baseline shape (every version x every optional top-level     *)
 (* kind alone / all together; every optional sub-chunk alone; MCNK population x placement of the   *)
@@ -19,7 +19,7 @@ Lay == [mcnk_hdr |-> McnkHdr, mcnk_fields |-> McnkFields, mhdr_fields |-> MhdrFi
 
 Base == [ver |-> 0, ntex |-> 1, nmdl |-> 0, nwmo |-> 0, nddf |-> 0, nmodf |-> 0, mcnk |-> "one00", where |-> "all",
          mcvt |-> TRUE, mcnr |-> TRUE, nly |-> 1, mcrf |-> FALSE, mcal |-> FALSE, mcsh |-> FALSE, mclq |-> FALSE,
-         mccv |-> FALSE, mcse |-> FALSE, mclv |-> FALSE, water |-> "none", wlay |-> 1, mfbo |-> FALSE, mtxf |-> FALSE,
+         mccv |-> FALSE, mcse |-> FALSE, mclv |-> FALSE, water |-> "none", wlay |-> 1, wbase |-> 0, mfbo |-> FALSE, mtxf |-> FALSE,
          mamp |-> FALSE, mtxp |-> FALSE, bmesh |-> FALSE]
 
 Vers    == 0..5
@@ -56,6 +56,15 @@ S4 == {[Base EXCEPT !.ver = 2, !.ntex = Cards[a], !.nmdl = Cards[b], !.nddf = Ca
 S5 == {[Base EXCEPT !.ver = v, !.water = Waters[w], !.wlay = y, !.mcnk = k, !.mtxp = (v = 5)] :
           v \in {3, 4, 5}, w \in 1..Len(Waters), k \in {"auto", "one00", "n17"}, y \in 1..3}
 
+\* S6: MH2O layer product {exists bitmap on/off} x {vertex data on/off} x LVF 0..3 x rectangle
+\*     {8x8@(0,0), 2x3@(1,2), 5x8@(3,0), 1x1@(7,7)} = 64 configurations, deterministic in every tier and seed.
+\*     LayerCfg(k) is how the driver decodes a configuration index; layer l of the q-th watered chunk of a tile
+\*     uses configuration (wbase + 5*q + 21*l) % 64: water on one chunk = exactly the named configurations,
+\*     water on all chunks = every configuration four times per layer position.
+LayerCfg(k) == [bm |-> k % 2 = 1, vd |-> (k \div 2) % 2 = 1, lvf |-> (k \div 4) % 4, rect |-> (k \div 16) % 4]
+S6 == {[Base EXCEPT !.ver = 3, !.water = w, !.wlay = 2, !.wbase = b] : w \in {"c0", "c255"}, b \in 0..63}
+      \cup {[Base EXCEPT !.ver = v, !.water = "all", !.wlay = y, !.wbase = b, !.mtxp = (v = 5)] : v \in {3, 4, 5}, y \in 1..3, b \in {0, 37}}
+
 \* ---- seeded draws from the full product
 Lcg(x) == (x * 75 + 74) % 65537
 DrawBool(x)    == (x \div 7) % 2 = 1
@@ -77,7 +86,7 @@ Draw(m) ==
         where |-> DrawOf(Wheres, x8), mcvt |-> x9 % 8 # 0, mcnr |-> x10 % 8 # 0, nly |-> (x11 \div 7) % 5,
         mcrf |-> DrawBool(x12), mcal |-> DrawBool(x13), mcsh |-> DrawBool(x14), mclq |-> DrawBool(x15),
         mccv |-> DrawBool(x16), mcse |-> DrawBool(x17), mclv |-> DrawBool(x18),
-        water |-> IF adm("water", x19) THEN DrawOf(<<"c0", "c255", "all">>, x20) ELSE "none", wlay |-> 1 + ((x20 \div 64) % 3),
+        water |-> IF adm("water", x19) THEN DrawOf(<<"c0", "c255", "all">>, x20) ELSE "none", wlay |-> 1 + ((x20 \div 64) % 3), wbase |-> (x19 \div 5) % 64,
         mfbo |-> adm("mfbo", x21), mtxf |-> adm("mtxf", x22), mamp |-> adm("mamp", x23), mtxp |-> adm("mtxp", x24),
         bmesh |-> adm("bmesh", x25)]
 NDraw == IF Thorough THEN 3000 ELSE 250
@@ -90,9 +99,10 @@ T1 == IF Thorough
       ELSE {}
 
 Shapes == SetToSeq(S1) \o SetToSeq(S2 \ S1) \o SetToSeq(S3 \ (S1 \cup S2)) \o SetToSeq(S4 \ (S1 \cup S2 \cup S3))
-          \o SetToSeq(S5 \ (S1 \cup S2 \cup S3 \cup S4)) \o SetToSeq(T1 \ (S1 \cup S2 \cup S3 \cup S4 \cup S5)) \o Draws
-Cases == [j \in 1..Len(Shapes) |-> [fld \in DOMAIN Shapes[j] \cup {"lay", "id"} |->
-             IF fld = "lay" THEN Lay ELSE IF fld = "id" THEN j ELSE Shapes[j][fld]]]
+          \o SetToSeq(S5 \ (S1 \cup S2 \cup S3 \cup S4)) \o SetToSeq(S6 \ (S1 \cup S2 \cup S3 \cup S4 \cup S5))
+          \o SetToSeq(T1 \ (S1 \cup S2 \cup S3 \cup S4 \cup S5 \cup S6)) \o Draws
+Cases == [j \in 1..Len(Shapes) |-> [fld \in DOMAIN Shapes[j] \cup {"lay", "id", "wl"} |->
+             IF fld = "lay" THEN Lay ELSE IF fld = "id" THEN j ELSE IF fld = "wl" THEN LayerCfg(Shapes[j].wbase) ELSE Shapes[j][fld]]]
 \* the generator is a constant-level computation; the behaviour spec is a single stuttering-free state
 GenInit == Init /\ aver = 0 /\ aopts = {} /\ ank = 0 /\ asubs = {}
 GenNext == FALSE /\ UNCHANGED avars
